@@ -20,6 +20,7 @@ func frameGroup(p *core.Prog, rep *core.Report) {
 	cd3bPadPerRecord(p, rep, bs, hdr)
 	cd5Width(p, rep, bs, hdr)
 	cd7LogicalSize(p, rep)
+	wd1WideOffsets(p, rep, bs)
 	chunkTypeProtocol(p, rep)
 	cd4Framing(p, rep)
 	wr1SingleWrite(p, rep)
@@ -28,6 +29,7 @@ func frameGroup(p *core.Prog, rep *core.Report) {
 	bd3Crc(p, rep)
 	bd4Window(p, rep)
 	eof1(p, rep)
+	eof2ScanEnds(p, rep)
 	ps8Readers(p, rep, "read")
 	rt2Decoded(p, rep)
 }
